@@ -407,6 +407,30 @@ func init() {
 	in("strings.IndexByte", func(st *State, c *frame, fn *ssa.Function, a []Value) Value {
 		return BVC(64, uint64(int64(strings.IndexByte(st.concStrV(a[0]), byte(st.concretise(a[1].(*Term), "byte"))))))
 	})
+	in("strings.Count", func(st *State, c *frame, fn *ssa.Function, a []Value) Value {
+		return BVC(64, uint64(int64(strings.Count(st.concStrV(a[0]), st.concStrV(a[1])))))
+	})
+	in("strings.LastIndex", func(st *State, c *frame, fn *ssa.Function, a []Value) Value {
+		return BVC(64, uint64(int64(strings.LastIndex(st.concStrV(a[0]), st.concStrV(a[1])))))
+	})
+	in("strings.ContainsRune", func(st *State, c *frame, fn *ssa.Function, a []Value) Value {
+		return BoolC(strings.ContainsRune(st.concStrV(a[0]), rune(int32(st.concretise(a[1].(*Term), "rune")))))
+	})
+	in("strings.ContainsAny", func(st *State, c *frame, fn *ssa.Function, a []Value) Value {
+		return BoolC(strings.ContainsAny(st.concStrV(a[0]), st.concStrV(a[1])))
+	})
+	in("strings.IndexRune", func(st *State, c *frame, fn *ssa.Function, a []Value) Value {
+		return BVC(64, uint64(int64(strings.IndexRune(st.concStrV(a[0]), rune(int32(st.concretise(a[1].(*Term), "rune")))))))
+	})
+	in("strings.IndexAny", func(st *State, c *frame, fn *ssa.Function, a []Value) Value {
+		return BVC(64, uint64(int64(strings.IndexAny(st.concStrV(a[0]), st.concStrV(a[1])))))
+	})
+	in("strings.TrimLeft", func(st *State, c *frame, fn *ssa.Function, a []Value) Value {
+		return strings.TrimLeft(st.concStrV(a[0]), st.concStrV(a[1]))
+	})
+	in("strings.TrimRight", func(st *State, c *frame, fn *ssa.Function, a []Value) Value {
+		return strings.TrimRight(st.concStrV(a[0]), st.concStrV(a[1]))
+	})
 	in("strings.Compare", func(st *State, c *frame, fn *ssa.Function, a []Value) Value {
 		return BVC(64, uint64(int64(strings.Compare(st.concStrV(a[0]), st.concStrV(a[1])))))
 	})
